@@ -219,8 +219,16 @@ func TestC10(t *testing.T) {
 		Rule: "rapid draws DB options (small memtables: WAL rotation/recycling; tiny MaxManifestFileSize: MANIFEST rotation; WALDir on/off; format versions on both sides of the WAL-sync chunk format) and a history with a drawn Sync flag per commit (incl. ApplyNoSyncWait+SyncWait), Flush, Compact, Ingest/IngestAndExcise/Excise (issued only when nothing is pending durability), restarts; a crash image is taken before every Stride-th mutating file-system operation and before every WAL-control/MANIFEST/marker/OPTIONS/rename/remove/dir-sync operation, for survival subsets {none, all, 1-2 pseudo-random subsets} of the unsynced 4KiB blocks and directory entries (deterministic MemFS crash clone). Every image must reopen and its full state must equal model[k] for some k in [durable, latest(+in-flight)]. " +
 			"non-trivial image = taken after a durable acknowledgement (durable version > 0) while un-durable data or several candidate versions existed; a case is non-trivial if it has such an image after a WAL rotation or flush; distinct = hash of plan JSON",
 		Assumptions: append([]string{"crash model = vfs.MemFS's: synced data survives; each unsynced 4KiB block and each unsynced directory entry survives independently; unsynced removals may be undone. Not a model of every real file system."}, commonAssumptions...),
-		Gen:         func(t *rapid.T) Plan { return Generate(t, p) },
+		Gen: func(t *rapid.T) Plan {
+			if rapid.IntRange(0, 99).Draw(t, "provplan") < 8 {
+				return Plan{Profile: "provider-sync", Prov: genProvPlan(t)}
+			}
+			return Generate(t, p)
+		},
 		Exec: func(pl Plan) (evid.Outcome, error) {
+			if pl.Prov != nil {
+				return execProvOutcome(pl.Prov)
+			}
 			res, err := RunPlan(pl, nil)
 			out := res.Outcome()
 			out.NonTrivial = res.C["crash-images-after-durable-ack"] > 0 && res.C["crash-images-ambiguous"] > 0 && hasLabel(out.Labels, "flushed")
@@ -238,8 +246,16 @@ func crashCheck(t *testing.T, id string, prof Profile, rule string, quick, thoro
 		ID: id, Level: "fault_enumeration", Bubble: true, Rule: rule, Known: known,
 		Assumptions: append([]string{"crash model = vfs.MemFS's: synced data survives; each unsynced 4KiB block and each unsynced directory entry survives independently; unsynced removals may be undone. Not a model of every real file system.",
 			"crash points are file-system operation boundaries (images are taken before the selected mutating operation); survival subsets: none, all, and pseudo-random subsets"}, commonAssumptions...),
-		Gen: func(t *rapid.T) Plan { return Generate(t, prof) },
+		Gen: func(t *rapid.T) Plan {
+			if provPct > 0 && rapid.IntRange(0, 99).Draw(t, "provplan") < provPct {
+				return Plan{Profile: "provider-sync", Prov: genProvPlan(t)}
+			}
+			return Generate(t, prof)
+		},
 		Exec: func(pl Plan) (evid.Outcome, error) {
+			if pl.Prov != nil {
+				return execProvOutcome(pl.Prov)
+			}
 			res, err := RunPlan(pl, nil)
 			out := res.Outcome()
 			out.NonTrivial = nt(res, out.Labels)
@@ -248,6 +264,20 @@ func crashCheck(t *testing.T, id string, prof Profile, rule string, quick, thoro
 		Quick: quick, Thorough: thorough,
 		Sample: func(p Plan) any { return p.Summary() },
 	})
+}
+
+// provPct is the share of provider-level schedule cases in the checks that
+// include them (C10, C12).
+var provPct = 0
+
+func execProvOutcome(p *ProvPlan) (evid.Outcome, error) {
+	c, err := execProvPlan(p)
+	out := evid.Outcome{Counters: c, Labels: []string{"kind=provider-sync-schedule"}}
+	if p.Exhaustive {
+		out.Labels = append(out.Labels, "provider-all-schedules")
+	}
+	out.NonTrivial = c["prov-syncs-interleaved-with-create-or-remove"] > 0
+	return out, err
 }
 
 var profCrashPrefix = Profile{
@@ -303,6 +333,8 @@ var profCrashFlush = Profile{
 }
 
 func TestC12(t *testing.T) {
+	provPct = 8
+	defer func() { provPct = 0 }()
 	crashCheck(t, "C12", profCrashFlush,
 		"NoSync commits and (half of the cases) DisableWAL configurations, then Flush or Close+reopen; crash images are taken at every selected FS operation after the call returned (until the end of the plan, including while later compactions delete the flushed inputs); survival 'none' is always among the subsets; every image must recover a state >= the version at the Flush/Close (durable point). "+
 			"non-trivial = an image was taken after a Flush/Close made un-synced (NoSync or WAL-less) data durable; distinct = hash of plan JSON",
